@@ -20,7 +20,7 @@ Proof.
   unfold conv_path. intros H Hm. rewrite Hm in H. cbn in H.
   destruct (ocont_eqb (pcont (c_ed c) (replay_path p None rs)) (pcont (c_ed c) (dlookup p (c_dump c)))) eqn:E.
   - apply ocont_eqb_eq. exact E.
-  - cbn in H. destruct (kf716 c p); discriminate.
+  - cbn in H. discriminate.
 Qed.
 
 (** ... and a path compatible with none of the queries is never updated. *)
@@ -32,5 +32,5 @@ Proof.
   unfold conv_path. intros H Hc Hm Hin. rewrite Hm, Hc in H.
   assert (existsb (path_eqb p) (upd_paths rs) = true) as E.
   { apply existsb_exists. exists p. split; auto. apply path_eqb_refl. }
-  rewrite E in H. destruct (kf716 c p); discriminate.
+  rewrite E in H. discriminate.
 Qed.
